@@ -15,7 +15,9 @@ RULE = ("enum + one chained step: every clamped knot vector of the alphabets x e
         "state = (knot vector, nodes) configuration and every curve snapshot reached; transition = one knot_insert call "
         "compared (knots = multiset union, curve identical as a function / rejected with ValueError and unchanged); "
         "non-trivial = distinct (knot vector, node multiset) pairs that are accepted, or rejected for multiplicity/"
-        "interval reasons")
+        "interval reasons. Plus live histories: every sequence of 3 (4) operations from {insert, insert existing, insert two, "
+        "elevate, set weights, drop weights, set control points, invalid insert, remove last inserted} on ONE curve object "
+        "(5 roots), the reference tracking the function after every step")
 ASSUMPTIONS = ["linearity in control points: unit vectors decide all control points for a fixed weight vector",
                "degrees/knot positions bounded by the listed alphabets"]
 
@@ -34,9 +36,27 @@ def cases(tier, seed):
             if tier == "quick" and K != "K0" and p > 2:
                 continue  # quick: the seed-selected alphabet is enumerated up to degree 2
             yield (K, p, U, b["multiset"], 5 if tier == "quick" else 99)
+    # histories on ONE live object (hidden per-object state is invisible to states rebuilt from snapshots)
+    for r in range(len(LIVE_ROOTS)):
+        for e in range(len(LIVE_OPS)):
+            yield ("live", r, e, 3 if tier == "quick" else 4, 0)
+
+
+LIVE_ROOTS = [
+    ([F(-1), F(-1), F(0), F(2), F(2)], "rational"),
+    ([F(-1)] * 3 + [F(1, 3)] + [F(2)] * 3, "rational"),
+    ([F(-1)] * 3 + [F(-1, 2), F(1), F(1)] + [F(2)] * 3, "polynomial"),
+    ([F(-1), F(0), F(2)], "rational"),
+    ([F(0)] * 4 + [F(1)] * 4, "rational"),
+]
+LIVE_OPS = ("insert_mid", "insert_existing", "insert_two", "elevate", "set_weights", "set_weights_none", "set_ctrlpoints",
+            "insert_invalid", "remove_last")
 
 
 def describe(case):
+    if case[0] == "live":
+        return {"live_history_root": list(LIVE_ROOTS[case[1]][0]), "kind": LIVE_ROOTS[case[1]][1], "first_operation": LIVE_OPS[case[2]],
+                "depth": case[3]}
     return {"alphabet": case[0], "degree": case[1], "knotvector": list(case[2]), "max_nodes": case[3]}
 
 
@@ -116,7 +136,127 @@ def check_insert(res, U, p, P, W, rep, nodes, labels, chain=None):
     return c
 
 
+def live_apply(c, op, state):
+    """apply one operation to the live curve c; returns (expected knots or None if unchanged, new reference function or None
+    if the function must be unchanged, must_raise)"""
+    U = lib.exact_kv(c.knotvector)
+    p = c.degree
+    ks = rb.knots_of(U)
+    n = c.npts
+    mid = ks[0] + (ks[1] - ks[0]) * F(2, 5)
+    if op == "insert_mid":
+        state["last"] = [mid]
+        return (lambda: c.knot_insert([mid])), sorted(U + [mid]), "same", False
+    if op == "insert_existing":
+        ex = [k for k in ks[1:-1] if rb.mult(U, k) <= p]
+        if not ex:
+            return None
+        state["last"] = [ex[0]]
+        return (lambda: c.knot_insert([ex[0]])), sorted(U + [ex[0]]), "same", False
+    if op == "insert_two":
+        x = ks[-2] + (ks[-1] - ks[-2]) * F(1, 3)
+        state["last"] = [x, mid]
+        return (lambda: c.knot_insert([x, mid])), sorted(U + [x, mid]), "same", False
+    if op == "elevate":
+        if p >= 4:
+            return None
+        state["last"] = None
+        return (lambda: c.degree_increase(1)), sorted(U + ks), "same", False
+    if op == "set_weights":
+        state["k"] = state.get("k", 0) + 1
+        W = [F(1 + (i * (state["k"] + 1)) % 3, 1 + (i + state["k"]) % 2) for i in range(n)]
+        state["last"] = None  # the function changes: the last inserted knot is no longer removable
+        return (lambda: setattr(c, "weights", W)), U, ("weights", W), False
+    if op == "set_weights_none":
+        state["last"] = None
+        return (lambda: setattr(c, "weights", None)), U, ("weights", None), False
+    if op == "set_ctrlpoints":
+        state["k"] = state.get("k", 0) + 1
+        P = [F((-1) ** i * (i + state["k"]), 1 + (i % 3)) for i in range(n)]
+        state["last"] = None
+        return (lambda: setattr(c, "ctrlpoints", P)), U, ("points", P), False
+    if op == "insert_invalid":
+        return (lambda: c.knot_insert([mid, ks[-1] + 1])), U, "same", True
+    if op == "remove_last":
+        if not state.get("last"):
+            return None
+        nodes = state["last"]
+        state["last"] = None
+        V = list(U)
+        for x in nodes:
+            if x not in V:
+                return None
+            V.remove(x)
+        return (lambda: c.knot_remove(nodes)), V, "same", False
+    raise KeyError(op)
+
+
+def run_live(case, res):
+    _, r, first, depth, _ = case
+    U0, kind = LIVE_ROOTS[r]
+    p0 = rb.degree_of(U0)
+    n0 = len(U0) - p0 - 1
+    P0 = al.generic_points(n0)
+    W0 = al.generic_weights(n0) if kind == "rational" else None
+    seqs = [[LIVE_OPS[first]]]
+    for _ in range(depth - 1):
+        seqs = [sq + [op] for sq in seqs for op in LIVE_OPS]
+    for seq in seqs:
+        c = lib.mk_curve(U0, P0, W0)
+        D = rb.denote(U0, P0, W0, p0)
+        state = {}
+        done = []
+        for op in seq:
+            res.transition()
+            plan = live_apply(c, op, state)
+            if plan is None:
+                break
+            fn, expU, func, must_raise = plan
+            before = lib.snap_curve(c)
+            o = lib.outcome(fn)
+            done.append(op)
+            tags = dict(live=True, op=op, rational=c.weights is not None, step=len(done))
+            where = f"live history {done} on one curve built from U={U0} P={P0} W={W0}"
+            if must_raise:
+                if o[0] == "ok" or o[1] != "ValueError":
+                    res.violation("accepted_invalid", f"{where}: gave {o[:2]} instead of ValueError", **tags)
+                    break
+                if lib.snap_curve(c) != before:
+                    res.violation("not_atomic", f"{where}: raised and changed the curve", **tags)
+                    break
+                continue
+            if o[0] != "ok":
+                res.violation("refused_valid", f"{where}: raised {o[1]}: {o[2]}", exc=o[1], **tags)
+                break
+            if func != "same":
+                what, val = func
+                Uc, Pc, Wc = lib.exact_curve(c)
+                if (what == "weights" and Wc != val) or (what == "points" and Pc != val):
+                    res.violation("setter", f"{where}: the setter stored {Wc if what == 'weights' else Pc}", **tags)
+                    break
+                D = rb.denote(Uc, Pc, Wc, c.degree)
+                continue
+            if lib.exact_kv(c.knotvector) != expU:
+                res.violation("knots", f"{where}: knot vector {lib.exact_kv(c.knotvector)} expected {expU}", **tags)
+                break
+            try:
+                same = lib.curve_pw(c).same(D)
+            except Exception:  # noqa: BLE001
+                same = False
+            if not same:
+                res.violation("curve_changed", f"{where}: the curve is no longer the same function: ctrlpoints {c.ctrlpoints} weights "
+                              f"{c.weights}", **tags)
+                break
+            res.state(lib.snap_curve(c))
+        res.trace()
+        res.nontriv((r, tuple(seq)))
+        res.outcome("live_history")
+    res.observe(sorted(res.outcomes.items()))
+
+
 def run_case(case, res):
+    if case[0] == "live":
+        return run_live(case, res)
     K, p, U, msize, unit2 = case
     U = list(U)
     n = len(U) - p - 1
